@@ -174,7 +174,7 @@ type c15Script struct {
 var c15HsTypes = map[string]byte{"hreq": 0, "ch": 1, "sh": 2, "nst": 4, "cert": 11, "skx": 12, "creq": 13, "shd": 14,
 	"cv": 15, "ckx": 16, "fin": 20, "status": 22, "npn": 67, "unk": 99}
 
-var c15InsEvents = map[string]bool{"ccs": true, "badccs": true, "appdata": true, "warn": true, "fatal": true, "closenotify": true,
+var c15InsEvents = map[string]bool{"ccs": true, "badccs": true, "appdata": true, "emptyapp": true, "warn": true, "fatal": true, "closenotify": true,
 	"badalert": true, "empty": true, "unkrec": true, "bigrec": true, "bigmsg": true, "frag": true, "malformed": true, "badvers": true}
 
 func parseC15Script(s string) (*c15Script, bool) {
@@ -412,6 +412,8 @@ func (m *c15Mitm) insert(e c15Edit, vers uint16) {
 			m.write(recCCS, vers, []byte{2})
 		case "appdata":
 			m.write(recAppData, vers, []byte("hello"))
+		case "emptyapp": // an application-data record with no payload
+			m.write(recAppData, vers, nil)
 		case "warn":
 			m.write(recAlert, vers, []byte{1, 90}) // warning, user_canceled
 		case "fatal":
@@ -451,6 +453,12 @@ func (m *c15Mitm) emit(it *c15Item, edits []c15Edit) {
 		case "trunc":
 			if it.kind == "hs" {
 				k := e.a
+				if k >= 2000000 { // 2000000+j: keep exactly j bytes of the body
+					k = len(raw) - 4 - (k - 2000000)
+					if k < 0 {
+						k = 0
+					}
+				}
 				if k > len(raw)-4 {
 					k = len(raw) - 4
 				}
@@ -1288,7 +1296,7 @@ var c15HsNamesSorted = func() []string {
 	return n
 }()
 
-var c15RecEvents = []string{"ccs", "badccs", "appdata", "warn", "fatal", "closenotify", "badalert", "empty", "unkrec", "bigrec",
+var c15RecEvents = []string{"ccs", "badccs", "appdata", "emptyapp", "warn", "fatal", "closenotify", "badalert", "empty", "unkrec", "bigrec",
 	"bigmsg", "malformed", "badvers"}
 
 type c15Gen struct {
@@ -1525,10 +1533,16 @@ func genC15(r *rng, tier string, emit func(string)) {
 		for _, e := range sample(g.framing(), q/2) {
 			op(e)
 		}
-		for i := range g.flat { // every handshake message with an EMPTY body and a consistent header
+		for i := range g.flat { // every handshake message with an EMPTY body, and with a body of 1, 2, 3 bytes; consistent header
 			if g.isHs(i) && g.flat[i] != "shd" {
 				op(fmt.Sprintf("trunc:%d:1000000:fix", i))
+				for j := 1; j <= 3; j++ {
+					op(fmt.Sprintf("trunc:%d:%d:fix", i, 2000000+j))
+				}
 			}
+		}
+		for i := range g.flat { // an application-data record WITHOUT payload before every item
+			op(fmt.Sprintf("ins:%d:emptyapp", i))
 		}
 		for _, e := range sample(g.retypes(), q) {
 			op(e)
@@ -1555,7 +1569,7 @@ func genC15(r *rng, tier string, emit func(string)) {
 			small = append(small, g.structural()...)
 			small = append(small, g.framing()...)
 			for i := range g.flat {
-				for _, e := range []string{"ccs", "appdata", "warn", "warn:6", "fatal", "empty", "shd", "hreq", "unk", "malformed"} {
+				for _, e := range []string{"ccs", "appdata", "emptyapp", "warn", "warn:6", "fatal", "empty", "shd", "hreq", "unk", "malformed"} {
 					small = append(small, fmt.Sprintf("ins:%d:%s", i, e))
 				}
 			}
